@@ -38,6 +38,9 @@ type Env struct {
 	Intercept bool
 	// Sub scripts for subscription fields: list of steps per path.
 	SubScript map[string][]string
+	// RegisterExt: every resolver call registers a response extension under its own path
+	// (graphql.RegisterExtension from concurrently resolved fields)
+	RegisterExt bool
 	// MapFields: for probes with a map-backed model, the fields of that GraphQL type
 	// (name -> "string" | "*string" | "object")
 	MapFields [][2]string
@@ -148,6 +151,9 @@ func resolveCtx(e *Env, ctx context.Context, rt reflect.Type) []reflect.Value {
 		e.OnCall(ctx, path)
 	}
 	defer e.Event("end " + path)
+	if e.RegisterExt {
+		graphql.RegisterExtension(ctx, "x@"+path, path)
+	}
 	zero := reflect.Zero(rt)
 	noErr := reflect.Zero(errType)
 	if e.HonourCancel && ctx.Err() != nil {
